@@ -98,11 +98,13 @@ PROPS = {
         'trusted': ['A1', 'A2', 'A3', 'A4', 'A5', 'A6', 'A7', 'A8', 'A9', 'A10', 'A11', 'A12', 'R15', 'R16', 'R17'],
         'proved_part': 'Verus: absence of panics (index/slice bounds incl. char boundaries in NonEmptyLines, arithmetic overflow, unwrap on None, callee preconditions) and '
                        'termination for wrap_first_fit, wrap_optimal_fit (Err only from the is_infinite test), skip_ansi_escape_sequence, display_width (A8), NonEmptyLines::next, '
-                       'wrap_columns (A11), Word::from, break_words, indent, dedent, fill_inplace (incl. from_utf8().unwrap()), wrap, wrap_single_line, wrap_single_line_slow_path (incl. char-boundary safety of its slices), fill_slow_path, unfill (incl. the #466 class of slice panics), WordSplitter::split_points, WrapAlgorithm::wrap, strip_ansi_escape_sequences, find_words_ascii_space, split_words and Word::break_apart (closures, R16).',
+                       'wrap_columns (A11), Word::from, break_words, indent, dedent, fill_inplace (incl. from_utf8().unwrap()), wrap, wrap_single_line, wrap_single_line_slow_path (incl. char-boundary safety of its slices), fill_slow_path, unfill (incl. the #466 class of slice panics), WordSplitter::split_points, WrapAlgorithm::wrap, strip_ansi_escape_sequences, find_words_ascii_space, find_words_unicode_break_properties, split_words and Word::break_apart (closures, R16), fill, refill, Options::new / from / the setters, LineEnding::as_str, LineNumbers::get (R17).',
         'bounded_part': 'BEC: every public function under catch_unwind with a hang watchdog over the adversarial alphabet, widths {0,1,2,7,usize::MAX}, all option combinations, '
-                        'extreme penalties; the Unicode word finder, refill and fill\'s fast path only here.',
-        'explanation': 'Mixed: panic-freedom and termination are proof obligations of every Verus unit (listed functions, all inputs); the Unicode word finder (external '
-                       'UAX #14 tables), unfill/refill and the thin public wrappers are covered by bounded exhaustive execution only.',
+                        'extreme penalties; only here: "optimal-fit never reports an overflow error for usize-valued widths and penalties" (A14: float magnitudes), the inside of the dependencies '
+                        '(smawk, unicode-linebreak, unicode-width tables), the three-arm dispatch WordSeparator::find_words (Box<dyn Iterator>) and the thin constructors.',
+        'explanation': 'Mixed, mostly proved: panic-freedom and termination are proof obligations of every Verus unit — every function the statement names, for all inputs, '
+                       'relative to the shape contracts of the three dependencies (A6, A13, A2); the overflow-error clause of optimal-fit needs float magnitudes and is bounded-only, '
+                       'as are the dependency internals and the Box<dyn Iterator> dispatch of find_words.',
     },
     'C05': {
         'units': ['U3', 'U11', 'U12', 'U17', 'U16', 'U14', 'U6'], 'level': 'other', 'kani': [K1, K1MIN, K3], 'trusted': ['A2', 'A3', 'A4', 'A8', 'A9', 'A12', 'A16', 'R15', 'R16'],
